@@ -22,30 +22,40 @@ THEOREMS = ["Gnmi.Refine." + t for t in [
     # the cache model's calls are explained transitions
     "step_events_known", "step_get_isSome",
 ]] + ["Gnmi.C04Refine." + t for t in [
-    "sim_init", "ca_sim", "seq_step_simulated", "expire_simulated_partial", "seq_run_simulated", "seq_reachable_in_lts",
+    "sim_init", "ca_sim", "gop_step_simulated", "expire_simulated", "expire_simulated_partial", "xrun_map_g",
+    "seq_step_simulated", "okHist_map_g", "okHist_append", "seq_run_simulated", "seq_reachable_in_lts",
     # LTS invariants transferred to the sequential model
     "seq_one_sync", "seq_never_sends_denied", "converges_of_rel", "seq_converges", "view_eq_replay", "seq_converges_replay",
-    # where the two models differ (decided witnesses; the first two replayed on the real server)
-    "histE_state", "suppressed_update_not_simulated", "overlap_dup_differs", "mode_other_status_differs",
-    "sync_send_expire_differs",
-    # non-vacuity
-    "histG_okHist", "histG_run",
+    # where the two models differ (decided witnesses; replayed on the real server)
+    "histE_state", "suppressed_update_not_simulated", "suppressed_update_lts_run", "overlap_dup_differs",
+    # two former differences, repaired in the LTS (bLTSFIX): the mode switch sits at h4, after HasTarget and the ACL check;
+    # the send timer is armed around the Send of the sync marker (D24)
+    "mode_other_status_agrees", "mode_other_rejected_at_switch", "sync_send_expire_agrees",
+    # non-vacuity (histX: two stalled subscribers, one inside the Send of the sync marker, ended by two timeouts)
+    "histG_gokHist", "histG_okHist", "histG_run", "histX_okHist", "histX_run",
 ]]
 
 LEVEL_TEXT = (
     " The sequential model and the LTS are linked by a proved simulation (Props/C04Refine.lean): for the LTS instance built from the "
     "actual requests (C06Glue.subSys), seq_step_simulated — every operation of the STREAM / cache-call / flow-control fragment "
-    "(Subscribe of a STREAM request accepted or rejected, any cache API call, gate shut/step/open) from a SEQ state related by "
+    "(Subscribe of a STREAM request accepted or rejected, any cache API call, gate shut/step/open) and the send timeout "
+    "(Sub.expire; expire_simulated, no side condition: the expire step of every client stalled inside a Send, of a data response "
+    "or of the sync marker) from a SEQ state related by "
     "Refine.StRel (cache contents = LTS store; every subscriber's queue as handles of the right generation, held response, gate, "
     "responses sent, status) is one finite run of LTS steps (handler, walker visits, writer W1;W2 per event, sender next;build;sent) "
     "ending in a related configuration with the same responses sent in the same order; seq_reachable_in_lts — every SEQ state "
     "reached by such a history is related to a Reach-able configuration, so LTS invariants hold of it: seq_one_sync, "
     "seq_never_sends_denied, seq_converges are C04.one_sync, C07L.never_sends_denied, C04.converges transferred "
     "(seq_converges_replay: on SubStream.replay, the conclusion of C04Gate.stream_converges_gate_open with equality). Partial: ONCE/POLL, "
-    "poll/eof/expire are not simulated; side conditions OkRun-like (Clean updates, fresh Adds, no '*' target), no atomic "
+    "poll/eof are not simulated; side conditions OkRun-like (Clean updates, fresh Adds, no '*' target), no atomic "
     "notification (D25), event-driven emulation off, subscription paths complete. Decided differences of the two models: a "
-    "suppressed update (written, not announced) has no LTS run (suppressed_update_not_simulated; the real server behaves as SEQ: "
-    "corpus/C04/refine_suppressed_update.ops); the initial walk counts a leaf twice when one request holds overlapping paths, "
-    "the LTS walker visits it once (overlap_dup_differs; duplicate counts are therefore not related); the glue ltsReq tests the "
-    "mode before HasTarget (mode_other_status_differs); the LTS does not arm the send timer around the sync marker (stale since the "
-    "repair of D24): a client stalled in sendSync can never expire, SEQ's expire ends it (sync_send_expire_differs).")
+    "suppressed update (written, not announced) is a quiet write w1Quiet of the LTS: the simulation relation demands an empty "
+    "quiet log, so the SEQ state after one is related to no reachable configuration (suppressed_update_not_simulated; the real server "
+    "behaves as SEQ: corpus/C04/refine_suppressed_update.ops), while suppressed_update_lts_run exhibits the LTS run with the quiet write "
+    "that matches it (same responses sent, same stored notification, quiet log = the one pair of equal-valued notifications, to which "
+    "C04.converges applies); the general simulation of suppressing histories is not proved; the initial walk counts a leaf twice when one request holds overlapping paths, "
+    "the LTS walker visits it once (overlap_dup_differs; duplicate counts are therefore not related). Two former differences "
+    "were repaired in the LTS: the handler tests the mode where the code does, in the switch after HasTarget and the ACL check "
+    "(Mode.other, rejected at h4: mode_other_status_agrees — NotFound for a missing target, InvalidArgument otherwise, in both "
+    "models), and the send timer is armed around the Send of the sync marker as since the repair of D24 (sync_send_expire_agrees: "
+    "in every reachable configuration a client stalled in sendSync can expire and ends with timeout).")
